@@ -21,3 +21,14 @@ package ws
 //@
 //@ func (*wsPipe).Recv
 //@   ensures isnil(result1) ==> result0 != nil && len(result0.Header) == 0
+//@
+//@ func (*dialer).Dial
+//@   before call:Dial#1 assert len(wd.Subprotocols) == 1 && wd.Subprotocols[0] == d.proto.PeerName + ".sp.nanomsg.org"
+//@   before call:SetReadLimit#1 assert arg0 == maxrx && w.dtype == websocket.BinaryMessage
+//@
+//@ func (*listener).handler
+//@   before call:SetReadLimit#1 assert arg0 == maxRx && w.dtype == websocket.BinaryMessage
+//@
+//@ func (*listener).ServeHTTP
+//@   before call:Upgrade#1 assert matched
+//@   before call:handler#1 assert called("Upgrade")
